@@ -11,6 +11,7 @@ def dispatch (line : String) : String :=
   | "FM" :: toks => Drv.FormsD.handle toks
   | "DL" :: toks => Drv.DeadlineD.handle toks
   | "WN" :: toks => Drv.DeadlineD.handleWait toks
+  | "SS" :: toks => Drv.SessionD.handle toks
   | "PT" :: toks => Drv.TransportD.handlePty toks
   | "PF" :: toks => Drv.TransportD.handleFd toks
   | _ => "bad-op"
